@@ -8,7 +8,8 @@ def build(eid, count, inrole):
     from openfisca_core.simulations import SimulationBuilder
     person = entities.build_entity(key="person", plural="persons", label="", is_person=True)
     household = entities.build_entity(key="household", plural="households", label="",
-                                      roles=[{"key": "parent", "plural": "parents"}, {"key": "child", "plural": "children"}])
+                                      roles=[{"key": "parent", "plural": "parents"}, {"key": "child", "plural": "children"},
+                                             {"key": "referent", "plural": "referents", "max": 1}])
     tbs = taxbenefitsystems.TaxBenefitSystem([person, household])
     sim = SimulationBuilder().build_default_simulation(tbs, count=len(eid))
     hh = sim.populations["household"]
@@ -36,6 +37,11 @@ def run(call):
         elif op == "nb_persons":
             got = hh.nb_persons(role=role)
             exp = [sum(1 for g, r in zip(eid, inrole) if g == k and (role is None or r)) for k in range(count)]
+        elif op == "value_from_person":
+            # the unique role: at most one holder per group (the scenario must respect it)
+            hh.members_role = [ent.REFERENT if r else ent.CHILD for r in inrole]
+            got = hh.value_from_person(vals, ent.REFERENT, default=-1.0)
+            exp = [next((v for v, g, r in zip(vals, eid, inrole) if g == k and r), -1.0) for k in range(count)]
         else:
             raise ValueError(op)
         g = [float(x) for x in got]
